@@ -56,7 +56,11 @@ func newClientCxnTracked(l lane.Lane, cxn net.Conn, dispatcher *cmdDispatcher, o
 		onClosed:    onClosed,
 	}
 
+	// the client state is in the registry as soon as it exists: a CLIENT KILL from another
+	// connection may find it before the assignment below (RequestClose takes the same lock)
+	cc.mu.Lock()
 	cc.cs = newClientState(l, cc, dispatcher)
+	cc.mu.Unlock()
 
 	cc.queueStateChange(csInitialize, nil)
 
